@@ -5,6 +5,7 @@ import (
 	"net/http"
 
 	"github.com/formancehq/ledger/internal/api/backend"
+	"github.com/formancehq/ledger/internal/verifhook"
 	sharedapi "github.com/formancehq/stack/libs/go-libs/api"
 )
 
@@ -17,6 +18,7 @@ func bulkHandler(w http.ResponseWriter, r *http.Request) {
 
 	w.Header().Set("Content-Type", "application/json")
 	ret, errorsInBulk, err := ProcessBulk(r.Context(), backend.LedgerFromContext(r.Context()), b, sharedapi.QueryParamBool(r, "continueOnFailure"))
+	verifhook.Yield(r.Context(), "bulk.processed")
 	if err != nil || errorsInBulk {
 		w.WriteHeader(http.StatusBadRequest)
 	}
